@@ -46,6 +46,8 @@ mod chunk;
 mod gen_login_async;
 #[cfg(feature = "full")]
 mod gen_collective;
+#[cfg(feature = "full")]
+mod gen_expect;
 
 pub fn hex(b: &[u8]) -> String {
     let mut s = String::with_capacity(b.len() * 2);
@@ -115,6 +117,20 @@ fn handle(ws: &[&str]) -> String {
             MAX_REQ.store(0, Ordering::Relaxed);
             TOTAL_REQ.store(0, Ordering::Relaxed);
             let r = std::panic::catch_unwind(|| codec::decode_only(lib, dir, &bytes)).unwrap_or_else(|_| format!("abort read-panic {}", last_panic()));
+            // the same bytes through the typed expect helper of the message type the header names (every world message: gen_expect.rs)
+            #[cfg(feature = "full")]
+            let r = if r.starts_with("abort") || lib.starts_with("login") { r } else {
+                let szlen = if *lib == "wrath" && *dir == "server" && bytes.first().map_or(false, |b| b & 0x80 != 0) { 3 } else { 2 };
+                let opcode = if *dir == "server" { bytes.get(szlen..szlen + 2).map(|o| u16::from_le_bytes([o[0], o[1]]) as u32) }
+                             else { bytes.get(2..6).map(|o| u32::from_le_bytes([o[0], o[1], o[2], o[3]])) };
+                match opcode {
+                    Some(op) => match std::panic::catch_unwind(|| gen_expect::expect_any(lib, dir, op, &bytes)) {
+                        Ok(_) => r,
+                        Err(_) => format!("abort read-panic expect-helper {}", last_panic()),
+                    },
+                    None => r,
+                }
+            };
             format!("{r} maxalloc={} totalalloc={}", MAX_REQ.load(Ordering::Relaxed), TOTAL_REQ.load(Ordering::Relaxed))
         }
         _ => "bad-op".into(),
